@@ -24,6 +24,8 @@ enum RetryError {
     Subscription(String, bool),
     Unreachable,
     Misbehaving(MisbehaviorProof),
+    // The tower had been flagged as misbehaving already (there is no new proof)
+    Flagged,
     Abandoned,
 }
 
@@ -33,6 +35,7 @@ impl Display for RetryError {
             RetryError::Subscription(r, _) => write!(f, "{r}"),
             RetryError::Unreachable => write!(f, "Tower cannot be reached"),
             RetryError::Misbehaving(_) => write!(f, "Tower misbehaved"),
+            RetryError::Flagged => write!(f, "Tower is flagged as misbehaving. Skipping retry"),
             RetryError::Abandoned => write!(f, "Tower was abandoned. Skipping retry"),
         }
     }
@@ -42,7 +45,10 @@ impl RetryError {
     fn is_permanent(&self) -> bool {
         matches!(
             self,
-            RetryError::Subscription(_, true) | RetryError::Misbehaving(_) | RetryError::Abandoned
+            RetryError::Subscription(_, true)
+                | RetryError::Misbehaving(_)
+                | RetryError::Flagged
+                | RetryError::Abandoned
         )
     }
 }
@@ -408,6 +414,9 @@ impl Retrier {
                                 .unwrap()
                                 .flag_misbehaving_tower(self.tower_id, p);
                         }
+                        RetryError::Flagged => {
+                            log::info!("Skipping retrying misbehaving tower {}", self.tower_id)
+                        }
                         RetryError::Abandoned => {
                             log::info!("Skipping retrying abandoned tower {}", self.tower_id)
                         }
@@ -447,6 +456,12 @@ impl Retrier {
             )
         };
 
+        // Nothing is sent to a tower we hold a misbehavior proof of. A retry may have been requested for it all the same, by a
+        // handler that was told about the tower before it was flagged.
+        if status.is_misbehaving() {
+            return Err(Error::permanent(RetryError::Flagged));
+        }
+
         // If the tower state is subscription_error we need to re-register first. If we cannot, then the retry is aborted.
         if status.is_subscription_error() {
             let receipt = http::register(tower_id, user_id, &net_addr, &proxy)
@@ -478,13 +493,17 @@ impl Retrier {
         while self.has_pending_appointments() {
             let locators = self.pending_appointments.lock().unwrap().clone();
             for locator in locators.into_iter() {
-                let appointment = self
-                    .wt_client
-                    .lock()
-                    .unwrap()
-                    .dbm
-                    .load_appointment(locator)
-                    .unwrap();
+                let appointment = {
+                    let wt_client = self.wt_client.lock().unwrap();
+                    // The tower may have been flagged meanwhile (e.g. by the answer to a request of another task)
+                    if wt_client
+                        .get_tower_status(&tower_id)
+                        .map_or(false, |s| s.is_misbehaving())
+                    {
+                        return Err(Error::permanent(RetryError::Flagged));
+                    }
+                    wt_client.dbm.load_appointment(locator).unwrap()
+                };
 
                 match http::add_appointment(
                     tower_id,
